@@ -42,6 +42,7 @@ def gen_case(streams, tier):
         'faults': world.gen_reject_faults(streams['faults'], script, ncyc, rate=0.4),
         'sched': world.gen_sched(streams),
         'dut_is_working': g.random() < 0.3,
+        'second_instance': g.random() < 0.2,
     }
     f = streams['faults']
     if f.random() < 0.3:
@@ -61,6 +62,9 @@ def run(case, res):
         pyrtl.set_working_block(b.block, no_sanity_check=True)
     ref = world.ref_for(script, init)
     sim = world.make_sim('sim', b, init)
+    # a second pyrtl.Simulation of the same block, stepped alternately with the first: state
+    # shared between instances (class attributes, default arguments) would show in either
+    sim2 = world.make_sim('sim', b, init) if case.get('second_instance') else None
     res.shape = hashlib.sha1(script_shape(script).encode()).hexdigest()[:12]
     res.sched = hashlib.sha1('|'.join(
         (n.dests[0].name if n.dests else '@' + n.args[0].name) for n in sim.ordered_nets
@@ -89,6 +93,14 @@ def run(case, res):
             res.probes.hit('undefined_double_write')
             break
         sim.step(dict(cyc))
+        if sim2 is not None:
+            sim2.step(dict(cyc))
+            for name, ev in exp.items():
+                if sim2.inspect(name) != ev:
+                    return Violation('wire_value', 'second_instance_value_mismatch',
+                                     {'wire': name, 'cycle': ci, 'expected': ev,
+                                      'got': sim2.inspect(name)}, ['second_instance'])
+            res.probes.hit('second_instance_cycles')
         res.cycles += 1
         for name, ev in exp.items():
             got = sim.inspect(name)
@@ -170,6 +182,10 @@ def candidates(case):
     if case.get('dut_is_working'):
         c = copy.deepcopy(case)
         c['dut_is_working'] = False
+        yield c
+    if case.get('second_instance'):
+        c = copy.deepcopy(case)
+        c['second_instance'] = False
         yield c
     for s in shrink.script_candidates(case['script']):
         c = copy.deepcopy(case)
